@@ -11,7 +11,15 @@ static Fields gen(Tape &t) {
   Fields f;
   LongMode lm(t);
   if (lm.on()) f.seti("long", 1);
-  ops_to_fields(f, g_history(t, SEG_ANY, false, 8));
+  std::vector<Op> hist = g_history(t, SEG_ANY, false, 8);
+  // one history in 40 starts from a text that RFC 3986 does not allow and other specifications do (zone identifiers,
+  // inet_aton addresses in brackets ...): the parse fails and nothing follows - unless the parser accepts more than the
+  // grammar, in which case what it returns is an object "returned by parsing" like any other
+  if (t.below(40) == 39 && hist.size() >= 2) {
+    static const std::vector<std::string> foreign = {"http://[fe80::1%25eth0]/a", "//[::1%25lo]", "http://[fe80::1%eth0]/x", "s://[fe80::a%251]:80/", "//[::ffff:1.2.3.4%25en0]/", "//[1::%25]", "http://[::1]%25eth0/", "//[v1.a%25b]/"};
+    hist[1].text = t.pick(foreign);
+  }
+  ops_to_fields(f, hist);
   // in a quarter of the histories every call goes through a custom memory manager whose k-th request of *each* call
   // (parses excepted) fails once: whatever a call then still returns as a success must satisfy the invariant like any other result
   f.seti("fault", t.chance(2, 3) ? 0 : (t.chance(1, 3) ? 1 : t.range(2, 6)));
@@ -61,6 +69,13 @@ template <class A> static Verdict invariant(typename A::Uri &u, char producer, c
     // an IPv4 host has one spelling (four dec-octets): the text held must be the text written (only IPv6 literals are re-spelled)
     if (held.hostKind == HK_IP4 && held.host != back.host) return fail("IPv4 host text '" + (held.host ? *held.host : std::string("-")) + "' reads back as '" + (back.host ? *back.host : std::string("-")) + "'", klass);
     if (held.hostKind == HK_IP6 && held.ip != back.ip) return fail("IPv6 value reads back differently", klass);
+    if (held.hostKind == HK_IP6) {
+      // the literal is re-spelled when written, so it is compared by value; the text the object holds must denote that value too
+      std::string lit = "//[" + (held.host ? *held.host : std::string()) + "]";
+      if (!uriref_matcher().matches(lit)) return fail("the IPv6 host text held, '" + (held.host ? *held.host : std::string("-")) + "', is not an IPv6 address", klass);
+      MUri hm = m_split(lit);
+      if (hm.hostKind != HK_IP6 || hm.ip != held.ip) return fail("the IPv6 host text held, '" + *held.host + "', does not denote the address held", klass);
+    }
     if ((held.hostKind == HK_REG || held.hostKind == HK_FUT) && held.host != back.host) return fail("host text reads back differently", klass);
     if (held.port != back.port) return fail("port reads back differently", klass);
   }
@@ -102,7 +117,7 @@ template <class A> static Verdict run(const std::vector<Op> &ops, int fault, int
 
 static Verdict check(const Fields &f) {
   std::vector<Op> ops = ops_from_fields(f);
-  for (auto &op : ops) if (op.kind == 'P' && !uriref_matcher().matches(op.text)) return Verdict::discard();
+  // (parse steps with texts outside the grammar are not discarded: such a parse fails and the steps that depend on it are skipped)
   int np = 0; bool pc = false; std::vector<std::string> bg;
   int fault = (int)f.geti("fault"), bitten = 0;
   Verdict v = run<Api<char>>(ops, fault, &np, &pc, &bg, &bitten);
